@@ -564,7 +564,8 @@ def evaluate__empty_and_exists_functions(self: XPathFunction, context: ta.Contex
 def select__empty(self: XPathFunction, context: ta.ContextType = None) \
         -> Iterator[bool]:
     try:
-        value = next(iter(self[0].select(self.context or context)))
+        # only the first item is consumed: the operand works on a copy of the context
+        value = next(iter(self[0].select(copy(self.context or context))))
     except StopIteration:
         yield True
     else:
@@ -575,7 +576,8 @@ def select__empty(self: XPathFunction, context: ta.ContextType = None) \
 def select__exists(self: XPathFunction, context: ta.ContextType = None) \
         -> Iterator[bool]:
     try:
-        value = next(iter(self[0].select(self.context or context)))
+        # only the first item is consumed: the operand works on a copy of the context
+        value = next(iter(self[0].select(copy(self.context or context))))
     except StopIteration:
         yield False
     else:
